@@ -380,6 +380,15 @@ def main(tier, seed):
                     case('eigh:split-sweep', meta, True)
                     rep.count('eigh:split (D, s)', '%d,%d' % (De, s_))
                     check_eigh(algopy, rep, viol, Ae, meta, 'split-late', s_)
+        # ================================================================= eigh: clusters that split IN STAGES next to simple eigenvalues
+        if not getattr(rep, '_staged_done', False):
+            rep._staged_done = True
+            import r12
+            for pname, De, Ae in r12.staged_spectra(rng, tier):
+                meta = dict(op='eigh', spectrum='staged:' + pname, n=Ae.shape[2], D=De, P=Ae.shape[1], A=Ae.tolist())
+                case('eigh:staged', meta, True)
+                rep.count('eigh: staged splitting', pname)
+                check_eigh(algopy, rep, viol, Ae, meta, 'staged', None)
         # ================================================================= eigh: distinct / exactly repeated eigenvalues
         for spec in ('distinct', 'repeated', 'split-late'):
             n = rng.randint(2, 4)
